@@ -15,4 +15,5 @@ open RV.C03
 #print axioms old_isValidList_diverges_on_cycle
 #print axioms layout_roundtrip
 #print axioms coll_is_sugar
+#print axioms preCheck_pre
 #print axioms hext_row_roundtrip
